@@ -25,6 +25,8 @@ RULES = {
              'handle: a clone reused for a second send can be refused when the subscriber has a backlog)',
     'C03.g': 'a notifier sends what it was handed: a body that only notifies (locks Watchers.map and sends, writes nothing) takes no '
              'lock of Database.map — value and version of a notification are the committed operands, not a later re-read',
+    'C03.h': 'a refused write notifies nobody: in the Arbiter arm of the conflict resolver (which answers an error) the notifying store is '
+             'not called with the key of the refused change — the in-conflict marker goes through the raw, non-notifying writer',
 }
 
 VALUE_MAP = 'std::collections::HashMap::<std::string::String, nundb::bo::Value>::'
@@ -44,6 +46,11 @@ def node_bodies(m):
 
 
 def run(ck, m):
+    _run(ck, m)
+    refused_write_silent(ck, m)
+
+
+def _run(ck, m):
     for k, v in RULES.items():
         ck.rule(k, v)
     P = m.prog
@@ -328,3 +335,42 @@ def operands_agree(m, b, wbi, posts):
         if meth == 'insert' and wval and not (nval & wval):
             return False, 'the notified value does not originate where the written value does'
     return True, 'key and value of the notification are the written ones'
+
+
+
+def refused_write_silent(ck, m):
+    from props.C02 import resolver_fn, strategy_switch, store_fn
+    P = m.prog
+    rb = resolver_fn(m)
+    sb = store_fn(m)
+    sw = strategy_switch(m, rb)
+    if sw is None:
+        ck.undecided('C03.h', short(rb.id), 'strategy-switch', 'no switch over ConsensuStrategy in the resolver')
+        return
+    sbi, tm = sw
+    arb = tm.get('Arbiter')
+    others = {t_ for k, t_ in tm.items() if k != 'Arbiter'}
+    region = {x for x in rb.reachable() if rb.dominates(arb, x) and not any(rb.dominates(o, x) for o in others)}
+    bad = []
+    n = 0
+    for x in sorted(region):
+        tx = rb.term(x)
+        if tx['k'] != 'call' or callee(tx) != sb.id:
+            continue
+        n += 1
+        # the Change handed to the store: where does its key come from?
+        for r in origins(rb, tx['args'][1], stop_at_calls=True):
+            if r[0] == 'agg':
+                rv = rb.blocks[r[1]]['s'][r[2]]['r']
+                if rv.get('adt', '').endswith('bo::Change') and 'key' in rv.get('fields', []):
+                    kop = rv['ops'][rv['fields'].index('key')]
+                    for r2 in origins(rb, kop):
+                        flds = [q[2] for q in r2[-1] if q[0] == 'f']
+                        if r2[0] == 'param' and r2[1] == 2 and flds[-2:] == ['change', 'key'] or (r2[0] == 'param' and flds[-1:] == ['key'] and 'change' in flds):
+                            bad.append(rb.loc(x))
+            elif r[0] == 'param' and r[1] == 2:
+                bad.append(rb.loc(x))
+    ck.ob('C03.h', short(rb.id), 'refusal-notifies-nobody', not bad,
+          'the Arbiter arm stores only its conflict record through the notifying store (%d call), never the refused key' % n if not bad else
+          'the Arbiter arm calls the notifying store with the key of the refused change (%s): subscribers of the key receive changed / '
+          'changed-version … -2 for a write that was answered with an error' % bad, rb.loc(arb))
